@@ -348,3 +348,171 @@ def check(cx):
                        "other operators reach residual.push", "operators without a bound arm are dropped instead of being kept as residual")
         if seen_sides != {"left", "right"}:
             cx.bad(r6, "sides", f.where(), "expected one operator table per operand order, found %s" % sorted(seen_sides))
+
+    # ---- C05.7 three-valued logic: predicate arms can answer NULL ---------------------------------------------------
+    r7 = cx.rule("C05.7", "TAB/FLOW: every evaluator arm that decides a predicate from operand values (BinaryOp, UnaryOp, BETWEEN, "
+                 "IN-list) can answer NULL for a NULL operand: the arm tests an evaluated operand for NULL and builds DataType::Null, "
+                 "or delegates to an evaluator helper that does (eval_binary_op / eval_unary_op / logical_and / logical_or)", floor=4)
+    EV = "runtime::eval::ExpressionEvaluator::<'a>::"
+    fev = cx.guard(r7, "evaluate", p.fn, EV + "evaluate")
+    if fev:
+        def null_aggs(g, blocks=None):
+            return [bi for bi, b in enumerate(g.blocks) if (blocks is None or bi in blocks) for st in b["stmts"]
+                    if st["rv"].get("r") == "agg" and st["rv"].get("adt") == "types::DataType" and st["rv"].get("variant") == "Null"]
+
+        def null_tests(g, blocks=None):
+            out = [bi for bi, adt, m, oth, src in enum_switches(p, g) if adt == "types::DataType" and "Null" in m and (blocks is None or bi in blocks)]
+            out += [c.bb for c in g.calls() if c.callee.endswith("::is_null") and (blocks is None or c.bb in blocks)]
+            return out
+        helpers = {g.id for g in p.fns.values() if g.impl_adt == "runtime::eval::ExpressionEvaluator" and not g.name.startswith("evaluate")
+                   and null_aggs(g) and null_tests(g)}
+        sws = [x for x in enum_switches(p, fev) if x[1].endswith("BoundExpression")]
+        if not sws:
+            cx.bad(r7, "no-match", fev.where(), "evaluate does not match on BoundExpression")
+        else:
+            bi, adt, m, oth, _ = max(sws, key=lambda x: len(x[2]))
+            for var in ("BinaryOp", "UnaryOp", "Between", "InList"):
+                if var not in m:
+                    cx.bad(r7, var, fev.where(), "no evaluator arm for %s" % var)
+                    continue
+                reg = dominated(fev, m[var])
+                own = bool(null_aggs(fev, reg)) and bool(null_tests(fev, reg))
+                via = sorted({c.callee.rsplit("::", 1)[-1] for c in fev.calls() if c.bb in reg and c.callee in helpers})
+                cx.verdict(own or bool(via), r7, var, fev.where(), "answers NULL %s" % ("itself" if own else "through " + ", ".join(via)),
+                           "the %s arm of the evaluator never tests an operand for NULL and never answers NULL: with a NULL operand "
+                           "the negated form (NOT BETWEEN / NOT IN) is TRUE instead of NULL and the row is returned" % var)
+
+    # ---- C05.8 aggregates ignore NULL; COUNT(*) counts rows ------------------------------------------------------------
+    r8 = cx.rule("C05.8", "FLOW: in Accumulator::accumulate the NULL arm of the value test returns without touching the accumulator, "
+                 "for every accumulator kind (COUNT(col) does not count NULLs); the aggregate executor never feeds a constant "
+                 "NULL into accumulate (COUNT(*) counts rows by another route)", floor=2)
+    ACC = "runtime::ops::aggregate::Accumulator::accumulate"
+    fa = cx.guard(r8, "accumulate", p.fn, ACC)
+    if fa:
+        tests = [(bi, m, oth) for bi, adt, m, oth, src in enum_switches(p, fa) if adt == "types::DataType" and "Null" in m and src[0] == 2]
+        if not tests:
+            cx.bad(r8, "null-skipped", fa.where(), "accumulate does not test its value for NULL")
+        else:
+            bi, m, oth = tests[0]
+            reach = fa.reachable_threaded(m["Null"])
+            touched = []
+            for b_ in sorted(reach):
+                for st in fa.blocks[b_]["stmts"]:
+                    d = st["dst"]
+                    if d[0] == 1 and len(d) > 1 and not fa.blocks[b_]["cleanup"]:
+                        touched.append(b_)
+                    elif len(d) > 1 and d[1] == "*" and 1 in fa.dep_closure(d[0]) and not fa.blocks[b_]["cleanup"] and \
+                            any(isinstance(pe, str) and ":runtime::ops::aggregate::Accumulator" in pe for pe in d[1:]):
+                        touched.append(b_)
+            # writes through the variant bindings (`*count += 1`): bindings are refs into (*self as Variant).field
+            binds = {st["dst"][0] for b in fa.blocks for st in b["stmts"] if st["rv"].get("r") == "ref" and st["rv"].get("mut")
+                     and st["rv"]["p"][0] == 1 and len(st["dst"]) == 1}
+            for b_ in sorted(reach):
+                for st in fa.blocks[b_]["stmts"]:
+                    if len(st["dst"]) > 1 and st["dst"][0] in binds and st["dst"][1] == "*":
+                        touched.append(b_)
+            cx.verdict(not touched, r8, "null-skipped", fa.where(), "a NULL value leaves every accumulator untouched",
+                       "a NULL value still reaches an accumulator update (bb%s): COUNT(col) counts rows whose col is NULL" % sorted(set(touched))[:3])
+    frow = [g for g in p.fns.values() if g.name == "accumulate_row" and "aggregate::HashAggregate" in g.id and not g.root]
+    if not frow:
+        cx.bad(r8, "no-constant-null", "", "HashAggregate::accumulate_row not found")
+    else:
+        g = frow[0]
+        consts = {st["dst"][0] for b in g.blocks for st in b["stmts"] if st["rv"].get("r") == "agg"
+                  and st["rv"].get("adt") == "types::DataType" and st["rv"].get("variant") == "Null" and len(st["dst"]) == 1}
+        fed = []
+        for c in g.calls():
+            if c.callee == ACC and len(c.args) > 1:
+                l = op_local(c.args[1])
+                if l is not None and consts & (g.dep_closure(l) | {l}):
+                    fed.append(c)
+        cx.verdict(not fed, r8, "no-constant-null", g.where(), "no constant NULL is accumulated",
+                   "accumulate_row feeds a constant NULL into Accumulator::accumulate (the COUNT(*) marker): either COUNT(*) "
+                   "stays at 0 or, if NULLs are counted for its sake, COUNT(col) counts NULLs")
+
+    # ---- C05.9 a NULL join key matches nothing and stalls nothing ----------------------------------------------------------
+    r9 = cx.rule("C05.9", "TAB: in MergeJoin::compare_keys a NULL key on one side returns the ordering whose arm in MergeJoin::next "
+                 "advances that same side (the row with the NULL is stepped over; answering the other ordering drains the other "
+                 "input and the join loses every later match); keys_match answers false for NULL on either side", floor=3)
+    fck = [g for g in p.fns.values() if g.name == "compare_keys" and "join::MergeJoin" in g.id and not g.root]
+    fnx = [g for g in p.fns.values() if g.name == "next" and "join::MergeJoin" in g.id and not g.root]
+    if not fck or not fnx:
+        cx.bad(r9, "anchor-missing", "", "MergeJoin::compare_keys / next not found")
+    else:
+        fck, fnx = fck[0], fnx[0]
+        # which side does each ordering advance
+        adv = {}
+        for bi, adt, m, oth, src in enum_switches(p, fnx):
+            if adt != "std::cmp::Ordering":
+                continue
+            prod = [c for c in fnx.calls() if c.callee == fck.id and c.dst and c.dst[0] == src[0]]
+            if not prod:
+                continue
+            for var, tgt in m.items():
+                reg = dominated(fnx, tgt)
+                sides = {c.callee.rsplit("::", 1)[-1] for c in fnx.calls() if c.bb in reg and c.callee.rsplit("::", 1)[-1] in ("advance_left", "advance_right")}
+                adv[var] = sides
+        side_of = {}
+        for var, sides in adv.items():
+            if sides == {"advance_left"}:
+                side_of["left"] = var
+            if sides == {"advance_right"}:
+                side_of["right"] = var
+        if set(side_of) != {"left", "right"}:
+            cx.bad(r9, "advance-table", fnx.where(), "cannot derive which ordering advances which input (%s)" % adv)
+        else:
+            # zip(left_keys, right_keys): tuple field 0 / 1 of the iterator item
+            for bi, adt, m, oth, src in enum_switches(p, fck):
+                if adt != "types::DataType" or "Null" not in m:
+                    continue
+                fld = None
+                for b in fck.blocks:
+                    for st in b["stmts"]:
+                        if st["dst"] == [src[0]] and st["rv"].get("r") == "use":
+                            pl = st["rv"]["o"][0].get("c") or st["rv"]["o"][0].get("m") or []
+                            for pe in pl[1:]:
+                                if isinstance(pe, str) and pe.startswith(".0"):
+                                    fld = "left"
+                                if isinstance(pe, str) and pe.startswith(".1"):
+                                    fld = "right"
+                if fld is None:
+                    cx.bad(r9, "null-key:operand-unknown", fck.where(), "cannot tell which side's key is tested for NULL")
+                    continue
+                # orderings returned from the Null arm before any other decision
+                got = set()
+                seen_b, work = set(), [m["Null"]]
+                while work:
+                    u = work.pop()
+                    if u in seen_b:
+                        continue
+                    seen_b.add(u)
+                    hit = [st["rv"]["variant"] for st in fck.blocks[u]["stmts"] if st["dst"] == [0] and st["rv"].get("r") == "agg"]
+                    if hit:
+                        got.add(hit[-1])
+                        continue
+                    t = fck.blocks[u]["term"]
+                    if t["t"] == "switch" and u != m["Null"]:
+                        # a further decision (e.g. `|| r is NULL`): follow both arms
+                        pass
+                    for v in fck.succ_threaded(u):
+                        if isinstance(v, tuple):
+                            v = v[2]
+                        if not fck.blocks[v]["cleanup"]:
+                            work.append(v)
+                want = side_of[fld]
+                cx.verdict(got == {want}, r9, "null-key:%s" % fld, fck.where(), "NULL on the %s answers %s (advances the %s input)" % (fld, want, fld),
+                           "a NULL key on the %s makes compare_keys answer %s, but only %s advances the %s input: the other input is "
+                           "drained past its matches and an inner equi-join with one NULL key returns no rows" % (fld, sorted(got), want, fld))
+    km = p.fns.get("runtime::ops::join::keys_match")
+    if km is None:
+        cx.bad(r9, "keys_match", "", "keys_match not found")
+    else:
+        nt = [(bi, m) for bi, adt, m, oth, src in enum_switches(p, km) if adt == "types::DataType" and "Null" in m]
+        good = len(nt) >= 2
+        for bi, m in nt:
+            # from the Null arm the function returns false without comparing
+            reach = km.reachable_threaded(m["Null"])
+            cmps = [c for c in km.calls() if c.bb in reach and c.defn in ("std::cmp::PartialEq::eq", "std::cmp::PartialEq::ne")]
+            good = good and not cmps
+        cx.verdict(good, r9, "keys_match", km.where(), "NULL on either side: no match, no comparison",
+                   "keys_match compares a NULL key (NULL = NULL would pair rows in hash and merge joins)")
